@@ -50,7 +50,9 @@ def _removeUltrashortIntervals(
     # First, remove tiny intervals
     newEntries: List[Interval] = []
     j = 0  # index to newEntries
+    lastEnd = None
     for start, end, label in tier["entries"]:
+        lastEnd = end
 
         if end - start < minLength:
             # Correct ultra-short entries
@@ -65,6 +67,12 @@ def _removeUltrashortIntervals(
             else:
                 newEntries.append(Interval(start, end, label))
             j += 1
+
+    # Every interval was ultra-short: the stretch they covered stays in the
+    # tier as a single unlabelled interval (a tier is never left without
+    # intervals)
+    if len(newEntries) == 0 and lastEnd is not None:
+        newEntries.append(Interval(minTimestamp, lastEnd, ""))
 
     # Next, shift near equivalent tiny boundaries
     # This will link intervals that were connected by an interval
